@@ -36,6 +36,39 @@ macro_rules! kproof {
 }
 pub(crate) use kproof;
 
+/// Stub for `Vec::push` that is equivalent to the real one whenever the capacity suffices (asserted), but CASE-SPLITS on
+/// the length so that every element is written at a concrete offset.  After a path merge the length of a Vec is an
+/// if-then-else term; the real push then writes a whole element (BlockChunk: 248 bytes) at a symbolic byte offset of
+/// the heap object, and CBMC's array encoding of those byte stores is quadratic (k01s_scan_step: > 36 GB).
+pub fn stub_vec_push_split<T, A: core::alloc::Allocator>(v: &mut Vec<T, A>, value: T) {
+    let len = v.len();
+    assert!(len < v.capacity(), "a Vec had to grow: the capacities given by the harness are too small");
+    unsafe {
+        let base = v.as_mut_ptr();
+        match len {
+            0 => core::ptr::write(base, value),
+            1 => core::ptr::write(base.add(1), value),
+            2 => core::ptr::write(base.add(2), value),
+            3 => core::ptr::write(base.add(3), value),
+            4 => core::ptr::write(base.add(4), value),
+            5 => core::ptr::write(base.add(5), value),
+            6 => core::ptr::write(base.add(6), value),
+            7 => core::ptr::write(base.add(7), value),
+            _ => { assert!(false, "stub_vec_push_split: more than 8 elements"); kani::assume(false); core::mem::forget(value); }
+        }
+        v.set_len(len + 1);
+    }
+}
+
+/// Stub for `alloc::alloc::realloc` in harnesses that give every growing `Vec` enough capacity up front: growth is
+/// ASSERTED unreachable (a harness whose capacities are too small fails, it is not silently cut), which removes the
+/// "every push may reallocate" forks that dominate CBMC's symbolic execution (DESIGN 1.2, cause 1).
+pub unsafe fn stub_realloc_unreachable(_ptr: *mut u8, _layout: core::alloc::Layout, _new_size: usize) -> *mut u8 {
+    assert!(false, "a Vec had to grow: the capacities given by the harness are too small");
+    kani::assume(false);
+    core::ptr::null_mut()
+}
+
 kproof! {
     /// base-build anchor; also a sanity witness that the stub set resolves.
     fn k00_smoke() {
